@@ -8,7 +8,7 @@ import (
 	v "github.com/pokt-network/pocket-core/verifrt"
 )
 
-//verif:config VerifC33 idealhash=yes cut=types.NewSessionNodes:7
+//verif:config VerifC33 idealhash=yes cut=types.NewSessionNodes:5
 
 type c33node struct {
 	exported.ValidatorI
@@ -67,7 +67,10 @@ func (c c33ctx) BlockHeight() int64 { return c.h }
 func VerifC33() {
 	codec.UpgradeFeatureMap = map[string]int64{codec.EnforceMaxChainsUpdateKey: 1}
 	const k = 2
-	n := 1 + v.Choice(4) // 1..4 candidates
+	n := 1 + v.Choice(3) // 1..3 candidates (4 in thorough)
+	if v.Tier() > 0 {
+		n = 1 + v.Choice(4)
+	}
 	pos := &c33pos{}
 	eligible := 0
 	for i := 0; i < n; i++ {
